@@ -45,8 +45,8 @@ def convert(scn, lu, fu, cu):
     ff = scen.FIELD_FACTOR[fu] / scen.FIELD_FACTOR[fu0]
     fc = scen.CUR_FACTOR[cu] / scen.CUR_FACTOR[cu0]
     s["device"]["length_units"] = lu
-    for k in ("xi", "lam", "d"):
-        s["device"]["layer"][k] = scn["device"]["layer"][k] * fl
+    for k in ("xi", "lam", "d", "z0"):
+        s["device"]["layer"][k] = scn["device"]["layer"].get(k, 0.0) * fl
     s["options"]["field_units"] = fu
     s["options"]["current_units"] = cu
     f = s["drive"]["field"]
@@ -383,6 +383,23 @@ def run(scn):
                             V.append(Violation("probe-extraction", f"DynamicsData.from_solution at probe positions given in {c_.lu}: the potentials returned are not those of the mesh sites physically closest to the requested positions", length_units=c_.lu, **where))
                             break
                     outs.append((Ka, B1, B2, Kb, Av))
+                    # absolute SI oracle for the field of the currents (whatever the units the problem was
+                    # stated in): mu_0/4pi x sum over cells of area x (K x (r - r'))_z / |r - r'|^3, the film
+                    # at its stated height z0, from the sheet current density in A/m
+                    sites_m = np.asarray(h_.device.mesh.sites, dtype=float) * xi_m
+                    areas_m2 = np.asarray(h_.device.mesh.areas, dtype=float) * xi_m**2
+                    dz_m = xi_m - c_.z0 * si.PREFIX[c_.lu]
+                    pts_m = pts * si.PREFIX[c_.lu]
+                    Bref = np.zeros(len(pts_m))
+                    for ip_, p_ in enumerate(pts_m):
+                        dx_ = p_[0] - sites_m[:, 0]
+                        dy_ = p_[1] - sites_m[:, 1]
+                        r3_ = (dx_**2 + dy_**2 + dz_m**2) ** 1.5
+                        Bref[ip_] = si.MU0 / (4 * np.pi) * float(np.sum(areas_m2 * (Ka[:, 0] * dy_ - Ka[:, 1] * dx_) / r3_))
+                    refS = float(np.max(np.abs(Bref), initial=0.0))
+                    if refS > 0 and np.shape(B1) == np.shape(Bref) and float(np.max(np.abs(B1 - Bref))) > 1e-7 * refS:
+                        V.append(Violation("field-SI", f"Solution.field_at_position in T ({c_.lu}, {c_.fu}, {c_.cu}; film at z0 = {c_.z0:.4g} {c_.lu}) differs from the direct SI sum over the cells' sheet currents by {float(np.max(np.abs(B1 - Bref))) / refS:.3g} relative", z0_nonzero=bool(c_.z0), **where))
+                        break
                     refA = max(float(np.max(np.abs(Av), initial=0.0)), float(np.max(np.abs(An), initial=0.0)), si.MU0 * K_peak * xi_m) + 1e-300
                     if float(np.max(np.abs(Av - An))) > 1e-9 * refA:
                         V.append(Violation("output-units", f"Solution.vector_potential_at_position ({c_.lu}, {c_.fu}, {c_.cu}): the value requested in T*m differs from the value in the solution's own units converted to T*m by {float(np.max(np.abs(Av - An))) / refA:.3g} relative", **where))
